@@ -58,8 +58,9 @@ package mqttproxy
 //     the routing set (the statement counts disconnect among the removals and
 //     speaks of "live" subscriptions; its subscriptions are live again from
 //     the reconnect on).
-//   * empty filter, empty topic name, '$'-topics, topic names containing
-//     wildcard characters: never generated, skipped if present in a scenario.
+//   * empty filter, empty topic name, topic names containing wildcard
+//     characters, level strings with control characters: never generated,
+//     skipped if present in a scenario ('$' topics: see second wave below).
 //   * QoS: when several subscriptions of one client match, any of their QoS
 //     values is accepted (the implementation's choice depends on map order).
 //   * a SUBSCRIBE consisting only of malformed filters must not be
@@ -83,6 +84,46 @@ package mqttproxy
 // client) still in the trie", which only that client's own task can change);
 // it decides which class name a routing violation gets and whether a dead
 // filter is tolerated after its first report, never whether routing is wrong.
+//
+// Second wave (ordinary but so far unexplored inputs):
+//   * level alphabet: besides {a,b,ab,'',é} a scenario may draw level strings
+//     that are plain text for MQTT but special for something a filter travels
+//     through (c14Exotic: blanks, YAML indicators and scalars such as ':', '- a',
+//     '~', 'null', 'true', '1.5', quotes, upper case twins 'A'/'B', CJK / emoji,
+//     130+ byte levels, '$'-prefixed levels, "<<"), and filters / topic names of
+//     up to 8-9 levels. A cleanSession=false session is stored as a YAML
+//     document whose map keys are the filters: a stored session that cannot be
+//     read back makes the resumed connection lose ALL its subscriptions; the
+//     routing oracle notices, the class name C14.restore-lost.stored-session-undecodable
+//     is chosen by decoding the stored document white-box (attribution only).
+//   * '$' topics: a topic name starting with '$' versus a filter whose first
+//     level is '+' or '#': MQTT 3.1.1 §4.7.2 says "must not match", the
+//     statement's own summary of the rules does not mention it -> both outcomes
+//     accepted (probes route.dollar_*). Through a literal first level
+//     ('$SYS/#' vs '$SYS/x') '$' is an ordinary character: must match.
+//   * how a connection ends: besides the plain teardown and "Client.close()
+//     first" there are now two-phase endings with a window in which the other
+//     tasks run: Client.close() ... teardown; admin deletion of the session
+//     (storage delete + Broker.deleteSession, what httpDeleteSessionHandler ->
+//     watchDelete do) ... teardown; the write loop's error path
+//     (closeAndDelSession) ... the read loop's teardown (closeAndDelSession +
+//     removeClient). In the window the read loop may process ONE more packet
+//     (it looks at c.done only before it blocks in ReadPacket, and Client.close()
+//     does not close the socket): a SUBSCRIBE or UNSUBSCRIBE.
+//     Oracle: during the window the statement is silent (is the client still
+//     "live"? does a packet processed now count?) -> everything of that client
+//     is optional; a SUBSCRIBE that is acknowledged while only Client.close()
+//     has run counts as a subscribe. After the second half the disconnect is
+//     complete: nothing of the client may be routed. What a late SUBSCRIBE left
+//     behind although the connection's clean-up had already run is reported as
+//     C14.late-subscribe-residue (attribution white-box, verdict by routing).
+//     For a cleanSession=false session the entries touched in a window (and the
+//     whole session after an admin deletion, which the statement does not know)
+//     may or may not come back at the next cleanSession=false connect.
+//   * "late": a connection that was torn down earlier runs closeAndDelSession
+//     (and, half of the time, Broker.removeClient) once more, as its write loop
+//     does on a write error: it is history, nothing may change (in particular
+//     not the stored session of a later connection with the same id).
 //
 // The trie is additionally walked after every mutating operation and compared
 // with the reference; a difference is never a verdict by itself: it only
@@ -110,12 +151,23 @@ type c14Sub struct {
 }
 
 type c14Op struct {
-	K     string   `json:"k"` // sub | unsub | disc | conn | pub
+	K     string   `json:"k"` // sub | unsub | disc | conn | pub | late
 	Subs  []c14Sub `json:"subs,omitempty"`
 	T     string   `json:"t,omitempty"`
 	B     bool     `json:"b,omitempty"` // disc: broker-initiated (Client.close() first, teardown afterwards)
 	P     bool     `json:"p,omitempty"` // conn: cleanSession=false
 	GapUs int64    `json:"gap_us,omitempty"`
+	// disc, second wave: how the connection ends (at most one of X, W; both win over B)
+	X    bool     `json:"x,omitempty"`    // admin deletion of the session: storage delete + Broker.deleteSession, the connection's own teardown follows later
+	W    bool     `json:"w,omitempty"`    // the write loop's error path runs closeAndDelSession first, the read loop's teardown follows later
+	Win  bool     `json:"win,omitempty"`  // B: other tasks may run between Client.close() and the teardown
+	Late *c14Late `json:"late,omitempty"` // one more packet the read loop still processes between the two halves (it only looks at c.done before it blocks in ReadPacket)
+	N    int      `json:"n,omitempty"`    // late: which of the id's earlier, torn-down connections runs its teardown once more
+}
+
+type c14Late struct {
+	K    string   `json:"k"` // sub | unsub
+	Subs []c14Sub `json:"subs,omitempty"`
 }
 
 type c14Task struct {
@@ -259,6 +311,20 @@ func (g *c14GenCtx) badFilter() string {
 	return g.malformedFilter()
 }
 
+// c14Exotic: level strings that are ordinary for MQTT (any UTF-8 text without
+// '/', '+', '#') but special for something a filter travels through: the YAML
+// document a cleanSession=false session is stored as (filters are map keys
+// there), the level cache, '$'-prefixed first levels (MQTT 3.1.1 §4.7.2).
+var c14Exotic = []string{" ", "a b", " a", "a ", "a: b", ":", "- a", "-", "?", "~", "null", "true", "yes", "1", "1.5", "0x1f", "=",
+	"*x", "&x", "!x", "%", "@", "`", "{", "}", "[a]", ",", "'", "\"", "\\", "|", ">", "---", "...", ".", "..", "2001-01-01",
+	"A", "B", "\u65e5\u672c", "\U0001F600", "$SYS", "$a", "$", "<", "<<a",
+	strings.Repeat("x", 130), strings.Repeat("x y ", 40) + "z"}
+
+// c14MergeKeyLiteral switches the generation of the level string "<<": a
+// cleanSession=false session holding the one-level filter "<<" is stored as a
+// YAML document that cannot be read back (see header, C14.restore-lost.stored-session-undecodable).
+const c14MergeKeyLiteral = true
+
 func c14Gen(rng *sim.Rand, tier string) interface{} {
 	sc := &c14Scenario{Cache: rng.Pick(1, 2, 4, 64)}
 	sc.Mixed = c14MixedLists && rng.Bool(0.2)
@@ -272,11 +338,24 @@ func c14Gen(rng *sim.Rand, tier string) interface{} {
 	if rng.Bool(0.05) {
 		g.lits = append(g.lits, "é")
 	}
-	g.maxLv = rng.Pick(2, 3, 4, 4)
+	mergeKey := false
+	if rng.Bool(0.3) {
+		for n := rng.Range(1, 3); n > 0; n-- {
+			g.lits = append(g.lits, c14Exotic[rng.Intn(len(c14Exotic))])
+		}
+		if c14MergeKeyLiteral && rng.Bool(0.15) {
+			g.lits = append(g.lits, "<<")
+			mergeKey = true
+		}
+	}
+	g.maxLv = rng.Pick(2, 3, 4, 4, 2, 3, 4, 4, 4, 6, 8)
 	g.pPlus = rng.Pick(0, 15, 30, 50)
 	g.pHash = rng.Pick(0, 20, 40, 60)
 	for n := rng.Range(3, 8); n > 0; n-- {
 		g.pool = append(g.pool, g.validFilter())
+	}
+	if mergeKey {
+		g.pool = append(g.pool, "<<")
 	}
 	for n := rng.Range(1, 3); n > 0; n-- {
 		g.badPool = append(g.badPool, g.malformedFilter())
@@ -330,13 +409,36 @@ func c14Gen(rng *sim.Rand, tier string) interface{} {
 			case x < pSub+pUnsub:
 				op.K, op.Subs = "unsub", list(6, 15)
 			case x < pSub+pUnsub+pDisc:
-				op.K, op.B = "disc", rng.Bool(0.35)
+				op.K = "disc"
+				switch y := rng.Intn(100); {
+				case y < 40: // plain teardown
+				case y < 60:
+					op.B = true // Client.close() and teardown in one stretch, as before
+				case y < 72:
+					op.B, op.Win = true, true
+				case y < 88:
+					op.X = true
+				default:
+					op.W = true
+				}
+				if (op.Win || op.X || op.W) && rng.Bool(0.55) {
+					l := &c14Late{K: "sub", Subs: list(4, 10)}
+					if rng.Bool(0.25) {
+						l.K = "unsub"
+					}
+					op.Late = l
+				}
 				if rng.Bool(0.75) {
 					// reconnect explicitly (otherwise the next sub/unsub connects with the task's default)
 					t.Ops = append(t.Ops, op)
-					op = c14Op{K: "conn", P: t.Persist != rng.Bool(0.2), GapUs: gap()}
+					if rng.Bool(0.3) {
+						t.Ops = append(t.Ops, c14Op{K: "late", N: rng.Intn(4), GapUs: gap()})
+					}
+					op = c14Op{K: "conn", P: t.Persist != rng.Bool(0.3), GapUs: gap()}
 					i++
 				}
+			case x < pSub+pUnsub+pDisc+3:
+				op.K, op.N = "late", rng.Intn(4)
 			default:
 				op.K, op.T = "pub", g.topic()
 			}
@@ -399,8 +501,28 @@ func c14Matches(filter, topic string) bool {
 	return c14Match(strings.Split(filter, "/"), strings.Split(topic, "/"))
 }
 
+// c14Unusual: the filter has a level outside the first-wave alphabet.
+func c14Unusual(f string) bool {
+	for _, l := range strings.Split(f, "/") {
+		switch l {
+		case "a", "b", "ab", "", "+", "#", "é":
+		default:
+			return true
+		}
+	}
+	return false
+}
+
 func c14TopicOK(t string) bool {
-	return t != "" && !strings.ContainsAny(t, "+#") && t[0] != '$'
+	return t != "" && !strings.ContainsAny(t, "+#")
+}
+
+// c14DollarOpt: MQTT 3.1.1 §4.7.2 forbids matching a topic name that begins
+// with '$' through a filter whose first level is a wildcard; the property
+// statement's own summary of the rules does not mention it. Both outcomes are
+// accepted for such a pair (see header).
+func c14DollarOpt(fl []string, topic string) bool {
+	return topic != "" && topic[0] == '$' && len(fl) > 0 && (fl[0] == "+" || fl[0] == "#")
 }
 
 type c14Ent struct {
@@ -409,7 +531,7 @@ type c14Ent struct {
 }
 
 type c14Zombie struct {
-	kind string // "subscribe" | "unsubscribe": which partial application may have left it
+	kind string // "subscribe" | "unsubscribe": which partial application may have left it; "late": a SUBSCRIBE processed after the connection's clean-up
 	qos  map[byte]bool
 }
 
@@ -422,21 +544,27 @@ type c14Ref struct {
 	// session holds while its client is away (filter -> QoS of the last subscribe)
 	persist map[string]bool
 	stored  map[string]map[string]map[byte]bool
+	// storedOpt: stored entries that may or may not come back with the session
+	// (they were touched by a packet processed while the connection was being
+	// torn down, or the session was deleted by an admin: the statement is silent)
+	storedOpt map[string]map[string]bool
 	requal  map[string]map[string]bool // filter was re-subscribed with another QoS since it was first taken
 }
 
 func c14NewRef() *c14Ref {
 	return &c14Ref{subs: map[string]map[string]*c14Ent{}, zomb: map[string]map[string]*c14Zombie{}, removed: map[string]map[string]bool{},
-		persist: map[string]bool{}, stored: map[string]map[string]map[byte]bool{}, requal: map[string]map[string]bool{}}
+		persist: map[string]bool{}, stored: map[string]map[string]map[byte]bool{}, storedOpt: map[string]map[string]bool{}, requal: map[string]map[string]bool{}}
 }
 
 // connect: a cleanSession=false connection finding a stored cleanSession=false
 // session gets its subscriptions back; any other combination starts empty and
 // discards what was stored.
-func (m *c14Ref) connect(id string, persist bool) (restored, requalified int, discarded bool) {
+func (m *c14Ref) connect(id string, persist, keepZombies bool) (restored, requalified int, discarded bool) {
 	m.client(id)
 	st := m.stored[id]
+	opt := m.storedOpt[id]
 	delete(m.stored, id)
+	delete(m.storedOpt, id)
 	m.persist[id] = persist
 	if !persist || st == nil {
 		discarded = len(st) > 0
@@ -444,12 +572,24 @@ func (m *c14Ref) connect(id string, persist bool) (restored, requalified int, di
 		return
 	}
 	for _, f := range c14Keys(st) {
-		e := &c14Ent{qos: map[byte]bool{}, definite: true}
+		e := &c14Ent{qos: map[byte]bool{}, definite: !opt[f]}
 		for q := range st[f] {
 			e.qos[q] = true
 		}
 		m.subs[id][f] = e
-		delete(m.zomb[id], f)
+		if !e.definite {
+			if z := m.zomb[id][f]; z != nil {
+				for q := range z.qos {
+					e.qos[q] = true
+				}
+			}
+			continue
+		}
+		if !keepZombies {
+			// re-installing the filter takes over a residue entry of the same
+			// (filter, client); not so if the stored session will turn out unreadable
+			delete(m.zomb[id], f)
+		}
 		restored++
 		if m.requal[id][f] {
 			requalified++
@@ -534,15 +674,27 @@ func (m *c14Ref) zombify(id, f, kind string) {
 // member of a refused mixed SUBSCRIBE list) that is still present afterwards
 // (left tells, a white-box lookup used for attribution only) becomes a zombie.
 func (m *c14Ref) disconnect(id string, left func(f string) bool) (had int) {
+	return m.disconnectKind(id, left, "subscribe")
+}
+
+// disconnectKind: kind names the zombies it leaves. Optional entries of a
+// cleanSession=false session may or may not be part of what comes back with it.
+func (m *c14Ref) disconnectKind(id string, left func(f string) bool, kind string) (had int) {
 	m.client(id)
 	if m.persist[id] {
 		m.stored[id] = map[string]map[byte]bool{}
+		m.storedOpt[id] = map[string]bool{}
 	}
 	for _, f := range c14Keys(m.subs[id]) {
 		e := m.subs[id][f]
 		if e.definite {
 			had++
+		}
+		{
 			if m.persist[id] {
+				if !e.definite {
+					m.storedOpt[id][f] = true
+				}
 				// one QoS, that of the last subscribe (several only after a refused mixed list, see header)
 				m.stored[id][f] = map[byte]bool{}
 				for q := range e.qos {
@@ -551,7 +703,7 @@ func (m *c14Ref) disconnect(id string, left func(f string) bool) (had int) {
 			}
 		}
 		if !e.definite && left(f) {
-			m.zombify(id, f, "subscribe")
+			m.zombify(id, f, kind)
 		} else {
 			m.removed[id][f] = true
 			delete(m.subs[id], f)
@@ -705,6 +857,12 @@ func c14Exec(r *sim.Run, sci interface{}) {
 	ref := c14NewRef()
 	var hist []c14Rec
 	fatal, final := false, false
+	limbo := map[string]bool{}       // between the two halves of a disconnect: the statement does not say whether the client's subscriptions still count, nor what a packet processed now achieves
+	cleaned := map[string]string{}   // in limbo AND the connection's clean-up has already run (admin deletion, write loop's error path): value = which
+	undecodableWhy := map[string]string{}
+	undecodable := map[string]bool{} // attribution only: the stored session the connection should have resumed cannot be decoded
+	lateSubs := map[string]map[string]map[byte]bool{} // attribution only: filters of SUBSCRIBEs processed between the halves of the id's current disconnect
+	lateWhy := map[string]string{}   // attribution only: which kind of clean-up preceded the id's late SUBSCRIBE
 	reported := map[string]bool{}
 	var (
 		nPubHit, nWild, nRemovedLive, nPubAfterRemoval int
@@ -729,6 +887,9 @@ func c14Exec(r *sim.Run, sci interface{}) {
 	}
 	known := func(kind, format string, a ...interface{}) {
 		class := "C14.partial-" + kind + "-residue"
+		if kind == "late" {
+			class = "C14.late-subscribe-residue"
+		}
 		if reported[class] {
 			return
 		}
@@ -763,7 +924,7 @@ func c14Exec(r *sim.Run, sci interface{}) {
 		}
 		var out []string
 		for _, id := range c14Keys(ids) {
-			must, may, wild := false, false, false
+			must, may, wild, dollarRouted := false, false, false, false
 			okQ := map[byte]bool{}
 			var why []string
 			for _, f := range c14Keys(ref.subs[id]) {
@@ -783,10 +944,20 @@ func c14Exec(r *sim.Run, sci interface{}) {
 						}
 					}
 				}
-				if e.definite {
-					must = true
-				} else {
+				switch {
+				case c14DollarOpt(fl, topic):
 					may = true
+					r.Probe("route.dollar_topic_vs_filter_with_leading_wildcard")
+					if _, routed := res[id]; routed {
+						dollarRouted = true
+					}
+				case e.definite && !limbo[id]:
+					must = true
+				default:
+					may = true
+				}
+				if topic[0] == '$' && !c14DollarOpt(fl, topic) {
+					r.Probe("route.dollar_topic_through_literal_first_level")
 				}
 				if strings.ContainsAny(f, "+#") {
 					wild = true
@@ -824,7 +995,13 @@ func c14Exec(r *sim.Run, sci interface{}) {
 				}
 			}
 			q, in := res[id]
+			if dollarRouted && !must {
+				r.Probe("route.dollar_topic_routed_only_through_leading_wildcard")
+			}
 			switch {
+			case must && !in && undecodable[id]:
+				violate("C14.restore-lost.stored-session-undecodable", "%s: topic %q is not routed to client %s, which resumed its cleanSession=false session and so holds matching subscription(s) %v: the stored session document could not be decoded again (%s), the connection got a fresh, empty session; got %v", who, topic, id, why, undecodableWhy[id], c14Render(res))
+				return "bad"
 			case must && !in:
 				violate("C14.route-missing", "%s: topic %q is not routed to client %s, which holds live matching subscription(s) %v; got %v", who, topic, id, why, c14Render(res))
 				return "bad"
@@ -833,6 +1010,9 @@ func c14Exec(r *sim.Run, sci interface{}) {
 					zwhy := zwhyKind["subscribe"]
 					if len(zwhy) > 0 {
 						known("subscribe", "%s: topic %q is routed to client %s through filter(s) %v: they were valid members of a SUBSCRIBE list that was refused because of a malformed member, and the client has disconnected since (closeAndDelSession only removes the filters recorded in the session, the refused list never got there)", who, topic, id, zwhy)
+					}
+					if zwhy = zwhyKind["late"]; len(zwhy) > 0 {
+						known("late", "%s: topic %q is routed to client %s through filter(s) %v: the SUBSCRIBE carrying them was processed after %s (the read loop still handles the packet it was waiting for), and the connection's teardown, which came afterwards and skipped its clean-up because that had been done, left them in the topic tree; nobody holds them", who, topic, id, zwhy, lateWhy[id])
 					}
 					if zwhy = zwhyKind["unsubscribe"]; len(zwhy) > 0 {
 						known("unsubscribe", "%s: topic %q is still routed to client %s through filter(s) %v after an acknowledged UNSUBSCRIBE that contained them together with a malformed filter (TopicManager.unsubscribe stops at the malformed one, Session.unsubscribe and the UNSUBACK go ahead)", who, topic, id, zwhy)
@@ -945,7 +1125,7 @@ func c14Exec(r *sim.Run, sci interface{}) {
 		}
 		for _, id := range c14Keys(ref.subs) {
 			for _, f := range c14Keys(ref.subs[id]) {
-				if ref.subs[id][f].definite && !seen[id+"\x00"+f] {
+				if ref.subs[id][f].definite && !limbo[id] && !seen[id+"\x00"+f] {
 					for _, t := range c14Witness(f) {
 						wit[t] = true
 					}
@@ -1009,6 +1189,18 @@ func c14Exec(r *sim.Run, sci interface{}) {
 		pkt.CleanSession = !persist
 		var c *Client
 		inv := r.Seq()
+		delete(undecodable, id)
+		if persist && len(ref.stored[id]) > 0 {
+			// attribution only (which class a later routing violation gets)
+			if str, err := b.sessMgr.store.get(sessionStoreKey(id)); err == nil && str != nil {
+				probe := &Session{info: &SessionInfo{}}
+				if derr := probe.decode(*str); derr != nil {
+					undecodable[id] = true
+					undecodableWhy[id] = derr.Error()
+					r.Probe("conn.stored_session_document_undecodable")
+				}
+			}
+		}
 		ok := call("connect (setSession + restore of session subscriptions)", func() {
 			c = newClient(pkt, b, nil, nil)
 			b.Lock()
@@ -1029,9 +1221,15 @@ func c14Exec(r *sim.Run, sci interface{}) {
 		ret := r.Seq()
 		cn := &c14Conn{c, c.session}
 		conns[id] = cn
-		restored, requalified, discarded := ref.connect(id, persist)
+		restored, requalified, discarded := ref.connect(id, persist, undecodable[id])
 		if restored > 0 {
 			r.Probe("conn.persistent_session_restored_subscriptions")
+			for _, f := range c14Keys(ref.subs[id]) {
+				if c14Unusual(f) {
+					r.Probe("conn.restored_filter_with_unusual_level")
+					break
+				}
+			}
 		}
 		if requalified > 0 {
 			r.Probe("conn.restored_filter_had_been_resubscribed_with_other_qos")
@@ -1073,7 +1271,7 @@ func c14Exec(r *sim.Run, sci interface{}) {
 	}
 	clean := func(subs []c14Sub) (fs []string, qs []byte) {
 		for _, s := range subs {
-			if s.F == "" || s.F[0] == '$' {
+			if s.F == "" {
 				continue
 			}
 			fs = append(fs, s.F)
@@ -1127,12 +1325,40 @@ func c14Exec(r *sim.Run, sci interface{}) {
 		hist = append(hist, c14Rec{id, "sub" + render(fs, qs), inv, ret, out})
 		r.Eventf("%s sub %s -> %s (%d,%d)", id, render(fs, qs), out, inv, ret)
 		switch {
+		case nBad == 0 && limbo[id] && (suback == nil || cleaned[id] != ""):
+			// processed while the connection is being torn down: may or may not
+			// count; after the teardown nothing of it may be left in the tree
+			for i, f := range fs {
+				ref.maybeSubscribe(id, f, qs[i])
+				if lateSubs[id] == nil {
+					lateSubs[id] = map[string]map[byte]bool{}
+				}
+				if lateSubs[id][f] == nil {
+					lateSubs[id][f] = map[byte]bool{}
+				}
+				lateSubs[id][f][qs[i]] = true
+			}
+			if suback != nil {
+				lateWhy[id] = cleaned[id]
+				r.Fault("subscribe_processed_after_cleanup")
+			}
 		case nBad == 0:
 			if suback == nil || suback.MessageID != pkt.MessageID || len(suback.ReturnCodes) != len(fs) {
 				violate("C14.valid-rejected", "%s: SUBSCRIBE %s with only well-formed filters was not acknowledged (suback=%v)", id, render(fs, qs), suback)
 				return
 			}
 			for i, f := range fs {
+				for j := 0; j < i; j++ {
+					if fs[j] == f && qs[j] != qs[i] {
+						r.Probe("sub.list_repeats_filter_with_other_qos")
+					}
+				}
+				if c14Unusual(f) {
+					r.Probe("sub.filter_with_unusual_level")
+				}
+				if strings.Count(f, "/") >= 5 {
+					r.Probe("sub.filter_of_6_or_more_levels")
+				}
 				if ref.subscribe(id, f, qs[i]) {
 					r.Probe("sub.resubscribe_other_qos")
 				}
@@ -1216,6 +1442,13 @@ func c14Exec(r *sim.Run, sci interface{}) {
 			}
 		}
 		switch {
+		case limbo[id] && (unsuback == nil || cleaned[id] != ""):
+			// processed while the connection is being torn down: may or may not count
+			for _, f := range fs {
+				if e := ref.subs[id][f]; e != nil && c14Valid(f) {
+					e.definite = false
+				}
+			}
 		case nBad == 0:
 			for _, f := range fs {
 				if ref.unsubscribe(id, f) {
@@ -1248,48 +1481,202 @@ func c14Exec(r *sim.Run, sci interface{}) {
 		afterMutation(id)
 	}
 
+	olds := map[string][]*Client{} // torn-down connections per id (their write loops may still call closeAndDelSession)
+
 	// doDisc: the teardown readLoop's deferred cleanup performs (closeAndDelSession,
-	// Broker.removeClient); brokerInitiated: the broker closed the client before
-	// (Client.close(): take-over, admin session deletion, pipeline Disconnect) and
-	// the connection teardown follows.
-	doDisc := func(id string, brokerInitiated bool) {
+	// Broker.removeClient). Variants: the broker closed the client before
+	// (Client.close(): take-over, pipeline Disconnect), an admin deleted the
+	// session (storage delete -> Broker.deleteSession), or the write loop's error
+	// path ran closeAndDelSession first; in the windowed variants other tasks run
+	// between the two halves, and the read loop may process one more packet.
+	doDisc := func(id string, op c14Op) {
 		cn := conns[id]
 		if cn == nil {
 			return
 		}
-		inv := r.Seq()
-		had := 0
-		if !call("closeAndDelSession", func() {
-			if brokerInitiated {
-				cn.c.close()
+		left := func(f string) bool { return c14InTrie(mgr.root, f, id) }
+		kind := "plain"
+		switch {
+		case op.X:
+			kind = "admin session delete"
+		case op.W:
+			kind = "write loop teardown"
+		case op.B:
+			kind = "broker close"
+		}
+		window := op.X || op.W || (op.B && (op.Win || op.Late != nil))
+		account := func(had int, what string, inv, ret uint64) {
+			if had > 0 {
+				if !final {
+					r.Probe("disc.mid_history_with_live_subscriptions")
+				}
+				nRemovedLive += had
+				if kind != "plain" {
+					r.Probe("disc." + strings.ReplaceAll(kind, " ", "_") + "_with_live_subscriptions")
+				}
 			}
-			cn.c.closeAndDelSession()
-			// the reference follows before anything else can be scheduled
-			had = ref.disconnect(id, func(f string) bool { return c14InTrie(mgr.root, f, id) })
-			b.removeClient(id)
+			hist = append(hist, c14Rec{id, what, inv, ret, fmt.Sprint(had)})
+			r.Eventf("%s %s -> removed %d (%d,%d)", id, what, had, inv, ret)
+		}
+		if !window {
+			inv := r.Seq()
+			had := 0
+			if !call("closeAndDelSession", func() {
+				if op.B {
+					cn.c.close()
+				}
+				cn.c.closeAndDelSession()
+				// the reference follows before anything else can be scheduled
+				had = ref.disconnect(id, left)
+				b.removeClient(id)
+			}) {
+				return
+			}
+			ret := r.Seq()
+			delete(conns, id)
+			olds[id] = append(olds[id], cn.c)
+			what := "disc"
+			if op.B {
+				what = "disc(broker-closed-first)"
+				if had > 0 {
+					r.Probe("disc.broker_initiated_with_live_subscriptions")
+				}
+			}
+			if ref.persist[id] && had > 0 {
+				r.Probe("disc.persistent_session_keeps_subscriptions")
+			}
+			account(had, what, inv, ret)
+			afterMutation(id)
+			return
+		}
+		// first half
+		inv := r.Seq()
+		if !call(kind+" (first half of a disconnect)", func() {
+			switch kind {
+			case "broker close":
+				cn.c.close()
+			case "admin session delete":
+				b.sessMgr.store.delete(sessionStoreKey(id))
+				b.deleteSession(id)
+				cleaned[id] = kind
+			default:
+				cn.c.closeAndDelSession()
+				cleaned[id] = kind
+			}
+			limbo[id] = true
 		}) {
 			return
 		}
 		ret := r.Seq()
+		r.Fault(strings.ReplaceAll(kind, " ", "_") + "_before_teardown")
+		hist = append(hist, c14Rec{id, "disc-1(" + kind + ")", inv, ret, "-"})
+		r.Eventf("%s disc-1(%s) (%d,%d)", id, kind, inv, ret)
+		afterMutation(id)
+		if fatal {
+			return
+		}
+		r.Sleep(0)
+		if fatal || r.Aborted() {
+			return
+		}
+		if l := op.Late; l != nil {
+			tag := strings.ReplaceAll(kind, " ", "_")
+			if l.K == "sub" {
+				r.Probe("disc.late_subscribe_after_" + tag)
+				doSub(id, l.Subs)
+			} else {
+				r.Probe("disc.late_unsubscribe_after_" + tag)
+				doUnsub(id, l.Subs)
+			}
+			if fatal {
+				return
+			}
+			r.Sleep(0)
+			if fatal || r.Aborted() {
+				return
+			}
+		}
+		// second half: the read loop's deferred teardown
+		inv = r.Seq()
+		had := 0
+		if !call("closeAndDelSession (teardown after "+kind+")", func() {
+			cn.c.closeAndDelSession()
+			delete(limbo, id)
+			delete(cleaned, id)
+			had = ref.disconnectKind(id, left, "late")
+			// attribution: whatever a late SUBSCRIBE named and is still in the tree now
+			// is that SUBSCRIBE's residue (it decides the class name, routing decides the verdict)
+			for _, f := range c14Keys(lateSubs[id]) {
+				if !left(f) {
+					continue
+				}
+				z := ref.zomb[id][f]
+				if z == nil {
+					z = &c14Zombie{kind: "late", qos: map[byte]bool{}}
+					ref.zomb[id][f] = z
+				}
+				z.kind = "late"
+				for q := range lateSubs[id][f] {
+					z.qos[q] = true
+				}
+			}
+			delete(lateSubs, id)
+			if kind == "admin session delete" {
+				// the statement does not know admin deletions: whether the session can be resumed is left open
+				for f := range ref.stored[id] {
+					ref.storedOpt[id][f] = true
+				}
+			}
+			b.removeClient(id)
+		}) {
+			return
+		}
+		ret = r.Seq()
 		delete(conns, id)
-		if had > 0 {
-			if !final {
-				r.Probe("disc.mid_history_with_live_subscriptions")
-			}
-			nRemovedLive += had
-		}
-		what := "disc"
-		if brokerInitiated {
-			what = "disc(broker-closed-first)"
-			if had > 0 {
-				r.Probe("disc.broker_initiated_with_live_subscriptions")
-			}
-		}
+		olds[id] = append(olds[id], cn.c)
 		if ref.persist[id] && had > 0 {
 			r.Probe("disc.persistent_session_keeps_subscriptions")
 		}
-		hist = append(hist, c14Rec{id, what, inv, ret, fmt.Sprint(had)})
-		r.Eventf("%s %s -> removed %d (%d,%d)", id, what, had, inv, ret)
+		account(had, "disc-2("+kind+")", inv, ret)
+		afterMutation(id)
+	}
+
+	// doLate: an earlier, already torn-down connection of this id runs its
+	// teardown once more (its write loop met a write error late; its read loop
+	// woke up late). The connection is history: nothing may change.
+	doLate := func(id string, n int) {
+		o := olds[id]
+		if len(o) == 0 {
+			return
+		}
+		if n < 0 {
+			n = -n
+		}
+		c := o[n%len(o)]
+		inv := r.Seq()
+		if !call("closeAndDelSession (once more, by a connection torn down earlier)", func() {
+			c.closeAndDelSession()
+			if n >= 2 {
+				b.removeClient(id)
+			}
+		}) {
+			return
+		}
+		ret := r.Seq()
+		r.Fault("duplicate_teardown_of_old_connection")
+		switch {
+		case conns[id] != nil:
+			r.Probe("late.duplicate_teardown_while_id_is_connected_again")
+		case len(ref.stored[id]) > 0:
+			r.Probe("late.duplicate_teardown_while_stored_session_waits")
+			if c.session != nil && c.session.cleanSession() {
+				r.Probe("late.duplicate_teardown_of_clean_connection_while_stored_session_waits")
+			}
+		default:
+			r.Probe("late.duplicate_teardown_while_id_is_away")
+		}
+		hist = append(hist, c14Rec{id, "dup-teardown", inv, ret, "-"})
+		r.Eventf("%s dup-teardown (%d,%d)", id, inv, ret)
 		afterMutation(id)
 	}
 
@@ -1321,7 +1708,9 @@ func c14Exec(r *sim.Run, sci interface{}) {
 				case "unsub":
 					doUnsub(t.ID, op.Subs)
 				case "disc":
-					doDisc(t.ID, op.B)
+					doDisc(t.ID, op)
+				case "late":
+					doLate(t.ID, op.N)
 				case "conn":
 					if conns[t.ID] == nil {
 						connect(t.ID, op.P)
@@ -1370,7 +1759,7 @@ func c14Exec(r *sim.Run, sci interface{}) {
 		if fatal {
 			return
 		}
-		doDisc(id, false)
+		doDisc(id, c14Op{})
 	}
 	if fatal {
 		return
@@ -1429,7 +1818,7 @@ func TestVerifC14(t *testing.T) {
 		New:      func() interface{} { return &c14Scenario{} },
 		Exec:     c14Exec,
 		MaxSteps: 20000,
-		Rule: "scenario = LRU size from {1,2,4,64} + 2-5 client tasks (subscribe/unsubscribe lists, re-subscribe with other QoS, unsubscribe of filters not held, malformed filters, disconnect by plain teardown or after a broker-initiated close, reconnect with cleanSession true/false incl. restore of the stored session's subscriptions) and 1-2 publisher tasks over filters/topics of <=4-5 levels from {a,b,ab,'',+,#}, <=60 operations; " +
+		Rule: "scenario = LRU size from {1,2,4,64} + 2-5 client tasks (subscribe/unsubscribe lists, re-subscribe with other QoS, unsubscribe of filters not held, malformed filters, disconnect by plain teardown / after a broker-initiated close / after an admin deletion of the session / after the write loop's own clean-up, the last three optionally with a window in which one more SUBSCRIBE or UNSUBSCRIBE is processed, a repeated teardown of an earlier connection, reconnect with cleanSession true/false incl. restore of the stored session's subscriptions) and 1-2 publisher tasks over filters/topics of <=4-5 (11%: <=9) levels from {a,b,ab,'',+,#} plus, in 30% of the scenarios, 1-3 level strings from a list of 48 unusual ones (blanks, YAML-special text, upper case, CJK, emoji, 130+ bytes, '$' prefixes), <=60 operations; " +
 			"non-trivial = some publish was routed through a wildcard filter and some publish happened after a live subscription had been removed; distinct = distinct (cache size, linearised operation history with results) signatures",
 		Real: []string{"pkg/object/mqttproxy/topic.go (TopicManager: subscribe, unsubscribe, findSubscribers, insert, remove, splitTopic, level LRU)",
 			"pkg/object/mqttproxy/client.go (processSubscribe, processUnsubscribe, Client.closeAndDelSession, close)",
@@ -1439,7 +1828,12 @@ func TestVerifC14(t *testing.T) {
 			"storage = the repo's mockStorage"},
 		Assumptions: []string{
 			"each operation runs atomically between two task-level gates (no gate inside production code), so the order of the harness's records is the linearisation order; invoke/return stamps are recorded for a later porcupine check; data races / missing locks are out of reach of this check",
-			"not generated: empty filter, empty topic name, '$' topics, topic names containing '+' or '#'",
+			"not generated: empty filter, empty topic name, topic names containing '+' or '#', control characters in level strings",
+			"a topic name starting with '$' may or may not be routed through a filter whose first level is a wildcard (MQTT 3.1.1 4.7.2 forbids it, the statement's summary of the rules is silent); through a literal first level '$' is an ordinary character",
+			"between the two halves of a two-phase disconnect (Client.close() / admin deletion / write loop clean-up ... read loop teardown) the client's subscriptions, and the effect of one SUBSCRIBE/UNSUBSCRIBE processed in that window, are optional (an acknowledged SUBSCRIBE after a mere Client.close() counts); after the second half nothing of the client may be routed (C14.late-subscribe-residue for what a late SUBSCRIBE left)",
+			"entries of a cleanSession=false session touched in such a window, and the whole session after an admin deletion, may or may not come back at the next cleanSession=false connect",
+			"a stored cleanSession=false session must come back whatever (control-character-free) text its filters consist of (C14.restore-lost.stored-session-undecodable otherwise)",
+			"a repeated teardown of a connection that was torn down earlier must not change anything",
 			"when several subscriptions of a client match, the QoS of any of them is accepted",
 			"a client with a cleanSession=false session is not in the routing set while it is away; after its cleanSession=false reconnect it holds the stored subscriptions with the QoS of the last subscribe of each filter",
 			"not generated: take-over of a still connected id (C16)",
